@@ -34,7 +34,11 @@ CONFIGS = {
     "2x2": {"kinds": ["http_prefix", "base"], "reqs": [[None, None], ["own-1", None]]},
     "3x2": {"kinds": ["base", "clone", "bauth"], "reqs": [[None, None], [None, "own-2"], [None, None]]},
     "3x3": {"kinds": ["bauth", "http_prefix", "base"], "reqs": [[None, None, None], ["own-3", None, None], [None, None, "own-4"]]},
+    # "!bad": a request that cannot be prepared (its data is not JSON-serialisable): the caller gets the TypeError, nothing
+    # is sent; the number it may have been handed is not handed to anybody else
+    "2x2bad": {"kinds": ["base", "bauth"], "reqs": [["!bad", None], [None, None]]},
 }
+BAD = "!bad"
 
 
 class _Patched:
@@ -85,6 +89,12 @@ def run_case(case):
         def mk(tid, conn, reqs):
             def fn():
                 for own in reqs:
+                    if own == BAD:
+                        try:
+                            conn.post("/p%d" % tid, data={"k": {1, 2}})
+                        except TypeError:
+                            pass
+                        continue
                     hdrs = {"X-Request-ID": own} if own is not None else None
                     conn.get("/p%d" % tid, headers=hdrs)
             return fn
@@ -99,8 +109,9 @@ def judge(case, s, opener):
     if s.errors:
         tid, e = s.errors[0]
         f.append(("request_raises_" + type(e).__name__, f"thread {tid}: {e}"))
-    supplied = [o for reqs in case["reqs"] for o in reqs if o is not None]
-    total = sum(len(r) for r in case["reqs"])
+    supplied = [o for reqs in case["reqs"] for o in reqs if o is not None and o != BAD]
+    nbad = sum(1 for reqs in case["reqs"] for o in reqs if o == BAD)
+    total = sum(len(r) for r in case["reqs"]) - nbad
     ids = []
     for rq in opener.requests:
         h = {k.lower(): v for k, v in rq.header_items()}
@@ -117,7 +128,7 @@ def judge(case, s, opener):
     if len(set(gen)) != len(gen):
         f.append(("duplicate_request_id", f"{gen!r} schedule={case['schedule']!r}"))
     nums = sorted(int(i.split("-")[-1]) for i in gen)
-    if nums != list(range(len(gen))):
+    if nums != list(range(len(gen))) and not (nbad and len(set(nums)) == len(nums) and set(nums) <= set(range(len(gen) + nbad))):
         if len(set(nums)) != len(nums):
             f.append(("sequence_number_repeated", f"{nums!r} schedule={case['schedule']!r}"))
         else:
@@ -339,9 +350,18 @@ def calibrate(cfg):
         for tid, (c, reqs) in enumerate(zip(conns, case["reqs"])):
             def fn(c=c, reqs=reqs):
                 for own in reqs:
+                    if own == BAD:
+                        try:
+                            c.post("/p", data={"k": {1, 2}})
+                        except TypeError:
+                            pass
+                        continue
                     c.get("/p", headers={"X-Request-ID": own} if own is not None else None)
-            s = sched.Scheduler(shim, "ak/conn_http.py", watch_funcs=WATCH)
-            s.run([fn], [])
+            # (measured on the second run: the first execution of a code object under the tracer is not reported opcode by
+            # opcode - CPython instruments it for opcode events only once f_trace_opcodes was set on one of its frames)
+            for _ in range(2):
+                s = sched.Scheduler(shim, "ak/conn_http.py", watch_funcs=WATCH)
+                s.run([fn], [])
             lens.append(s.steps[0])
         return lens
 
@@ -406,6 +426,8 @@ def parts(tier):
         Part("single_preemption_2x2", evaluate, enumerate=single_preemption("2x2"), exhaustive=True),
         Part("single_preemption_3x2", evaluate, enumerate=single_preemption("3x2"), exhaustive=True),
         Part("single_preemption_3x3", evaluate, enumerate=single_preemption("3x3"), exhaustive=True),
+        Part("single_preemption_2x2bad", evaluate, enumerate=single_preemption("2x2bad"), exhaustive=True,
+             note="one thread's first request cannot be prepared (unserialisable data)"),
         Part("random_multi_preemption", evaluate, strategy=st_schedules, examples=6000 if tier == "quick" else 200000),
     ]
     ps.append(Part("derived_families", eval_family, strategy=st_family, examples=4000 if tier == "quick" else 120000,
